@@ -45,6 +45,9 @@ enum Cond {
     /// a constant that is defined at the end of main.asm (unknown in the first pass), 1 / 0
     Late1,
     Late0,
+    /// non-zero values other than 1 select the first branch too: `1 - 2` (negative) and `2`
+    Neg,
+    Two,
 }
 
 #[derive(Clone, Copy, PartialEq, Eq, Hash, Debug, PartialOrd, Ord)]
@@ -176,6 +179,8 @@ impl Level {
                     Cond::C1Eq2 => "c1==2",
                     Cond::Late1 => "late-1",
                     Cond::Late0 => "late-0",
+                    Cond::Neg => "1-2",
+                    Cond::Two => "2",
                 };
                 match s {
                     IfShape::Then => format!("if({})", c),
@@ -251,7 +256,7 @@ fn all_levels() -> Vec<Level> {
     for n in 0..=3u8 {
         v.push(Level::Loop(n));
     }
-    for c in [Cond::Lit1, Cond::Lit0, Cond::DefX, Cond::DefU, Cond::C1Eq2, Cond::Late1, Cond::Late0] {
+    for c in [Cond::Lit1, Cond::Lit0, Cond::DefX, Cond::DefU, Cond::C1Eq2, Cond::Late1, Cond::Late0, Cond::Neg, Cond::Two] {
         for s in [IfShape::Then, IfShape::ThenElse, IfShape::InElse, IfShape::ThenElseDefs, IfShape::InElseDefs] {
             v.push(Level::If(c, s));
         }
@@ -339,7 +344,7 @@ fn levels_valid(levels: &[Level]) -> bool {
                 for inner in &levels[i + 1..] {
                     match inner {
                         Level::If(c, shape) => {
-                            let truth = matches!(c, Cond::Lit1 | Cond::DefX | Cond::Late1);
+                            let truth = matches!(c, Cond::Lit1 | Cond::DefX | Cond::Late1 | Cond::Neg | Cond::Two);
                             let defs_selected = match shape {
                                 IfShape::ThenElseDefs => !truth,
                                 IfShape::InElseDefs => truth,
@@ -510,6 +515,8 @@ impl<'n> Builder<'n> {
                     Cond::C1Eq2 => bin(id("c1"), "==", num(2)),
                     Cond::Late1 => id("late1"),
                     Cond::Late0 => id("late0"),
+                    Cond::Neg => bin(num(1), "-", num(2)),
+                    Cond::Two => num(2),
                 };
                 let mut defs = vec![filler.clone(), label("fwd"), label("outer"), konst("c1", num(9))];
                 for (j, l) in self.nest.levels.iter().enumerate() {
@@ -1766,7 +1773,7 @@ pub fn run(ctx: &Ctx, replay: Option<&Value>) -> i32 {
 
     ctx.finish(
         "exploration",
-        "every construct nest of depth <= d (quick 2, thorough 3) over 80 level variants (.loop 0..3; .if with 5 statically decidable conditions x then / then+else / child in else; macro with 0-2 parameters x 1-2 invocations x defined at top / locally / after use; .const literal or expression x before / after use; {} and l: {}; .import * / name / name as / * as ns / two names / same file twice (aliases, namespaces) / name of a block label x with and without parameter block, the nested construct living in the imported file) x leaf body (nop, lda #V, .byte V + 1 for V in index / macro parameter / constant where one is in scope, jmp outer, jmp fwd, inner label + branch in own braces, bne - in own braces). P and its by-hand expansion (AST -> AST, written here) are both assembled by the real code and their segments compared. non-trivial = distinct P containing at least one construct where both P and expand(P) assemble",
+        "every construct nest of depth <= d (quick 2, thorough 3) over 90 level variants (.loop 0..3; .if with 9 statically decidable conditions - literal 1 / 0, defined(), a comparison, a late constant 1 / 0, a negative value `1 - 2`, a value above one `2` - x then / then+else / child in else; macro with 0-2 parameters x 1-2 invocations x defined at top / locally / after use; .const literal or expression x before / after use; {} and l: {}; .import * / name / name as / * as ns / two names / same file twice (aliases, namespaces) / name of a block label x with and without parameter block, the nested construct living in the imported file) x leaf body (nop, lda #V, .byte V + 1 for V in index / macro parameter / constant where one is in scope, jmp outer, jmp fwd, inner label + branch in own braces, bne - in own braces). P and its by-hand expansion (AST -> AST, written here) are both assembled by the real code and their segments compared. non-trivial = distinct P containing at least one construct where both P and expand(P) assemble",
         true,
         &[
             "depth bound d (2 quick / 3 thorough); one nest per program, one leaf per nest",
